@@ -95,6 +95,10 @@ register("C11", "exploration", "E1 explore", "full product enumeration of (AES c
          "Every AES chain family x header encryption off/ctor/setter x 5 (thorough 6) password classes: raw-byte searches for plaintext and names, decoding with the AES stage left out, keyless parse, IV/ciphertext uniqueness across two archives, outcomes with right / absent / 4 classes of wrong passwords; plus 9 reference-written archives with 2^0/2^4 KDF rounds attacked with every single-edit neighbour of the password.",
          "AES and SHA-256 primitives are trusted; py7zr's KDF is memoised (the independent KDF in ref7z cross-checks it in C07).", "DESIGN.md section 5 C11")
 
+register("C19", "exploration", "E1 explore", "enumeration of subcommand x option alphabet x trees, and exhaustive flips/truncations of base archives through the real command-line entry point, judged against the library's verdict on the same bytes",
+         "c/l/x/a/t/i over small source trees (with and without .7z, --verbose, with and without output directory), every -v SIZE x unit suffix combination, and t/x on every single-bit flip and truncation of 4 (thorough 8) base archives plus encrypted / unsupported / damaged fixtures; exit status 0 exactly when the library-level operation succeeds, and exit 0 on x implies the original bytes.",
+         "Statuses are taken in-process; the status mapping is compared with real `python -m py7zr` subprocesses on 10 invocations per run. -P needs a terminal and is not exercised.", "DESIGN.md section 5 C19")
+
 NOT_YET = {}
 
 
